@@ -290,6 +290,7 @@ type c17File struct {
 	Tree      *merkletree.MerkleTree
 	Size      int64
 	MaxProofs int64
+	Window    int64 // the network's proof window when the file was posted: the interval its provers are judged by
 }
 
 func (f *c17File) key() string {
@@ -758,15 +759,26 @@ func (h *c17Hist) opPost() error {
 
 func (h *c17Hist) postWith(d *c17Data, owner string, size, maxp, expires int64, note string) error {
 	e := h.e
-	msg := &storagetypes.MsgPostFile{Creator: owner, Merkle: d.Merkle, FileSize: size, ProofType: 0, MaxProofs: maxp, Expires: expires, Note: note}
+	// the message has a proof_interval field; the chain judges every file by the network's window, whatever a client asks for
+	asked := PickOne(h.p, []int64{0, 0, 40, h.params.ProofWindow, h.params.ProofWindow + 1, 1 << 40, 1<<63 - 1, -1, 1})
+	msg := &storagetypes.MsgPostFile{Creator: owner, Merkle: d.Merkle, FileSize: size, ProofType: 0, MaxProofs: maxp, Expires: expires, Note: note, ProofInterval: asked}
 	pre := h.cur
 	res := e.Run(msg)
 	post := c17Observe(e)
+	if res.Out == OutOk {
+		for _, f := range post.F1 {
+			if f.Start == e.Height && f.Owner == owner && bytes.Equal(f.Merkle, d.Merkle) && f.ProofInterval != h.params.ProofWindow {
+				h.trace = append(h.trace, map[string]interface{}{"op": "PostFile", "msg": msg, "height": e.Height, "stored_proof_interval": f.ProofInterval, "network_proof_window": h.params.ProofWindow})
+				h.finding("C01/post/interval-is-not-the-network-window", fmt.Sprintf("a file posted with proof_interval %d is stored with interval %d while the network's proof window is %d: its provers are judged (and paid) by an interval its owner chose", asked, f.ProofInterval, h.params.ProofWindow))
+				h.trace = h.trace[:len(h.trace)-1]
+			}
+		}
+	}
 	paid := res.Out == OutOk || strings.HasPrefix(res.Err, "validatebasic:")
 	term := fmt.Sprintf("PostFile %s %s %s %s %s %s %s %s %s %s", cN(h.t.id(owner)), cN(h.t.merkle(d.Merkle)), cZ(e.Height), cZ(expires), cZ(size), cZ(maxp),
 		cZ(h.params.ProofWindow), cZ(0), cN(h.t.note(note)), cBool(paid))
 	if res.Out == OutOk {
-		nf := &c17File{Merkle: d.Merkle, Owner: owner, Start: e.Height, Chunks: d.Chunks, Leaves: d.Leaves, Tree: d.Tree, Size: size, MaxProofs: maxp}
+		nf := &c17File{Merkle: d.Merkle, Owner: owner, Start: e.Height, Chunks: d.Chunks, Leaves: d.Leaves, Tree: d.Tree, Size: size, MaxProofs: maxp, Window: h.params.ProofWindow}
 		// a re-post in the same block replaces the earlier file (and drops its provers)
 		kept := h.files[:0]
 		for _, f := range h.files {
@@ -1430,6 +1442,11 @@ func (h *c17Hist) opReward(aligned bool) error {
 			justified := false
 			for _, f := range pre.F1 {
 				iv := f.ProofInterval
+				for _, hf := range h.files { // the window the network had when the file was posted, as this harness saw it
+					if hf.Window > 0 && hf.key() == c17FileKey(f) {
+						iv = hf.Window
+					}
+				}
 				if iv <= 0 {
 					continue
 				}
